@@ -157,7 +157,11 @@ def run_case(res, case):
             assoc = asceprovider.Association(ae, None, r.choice([16384, 128, 64]))
             assoc.remote_ae = 'REMOTE'
             stub = Stub.instances[0]
-            Stub.preload_on_empty = svc.CooperativePeer()
+            # storage commitment: sometimes the association back to the requester of the
+            # commitment cannot be opened - the N-ACTION request must be answered all the same
+            sub_refused = provider == 'n-action' and not raises and r.random() < 0.3
+            Stub.preload_on_empty = svc.CooperativePeer(refuse=sub_refused)
+            case = dict(case, sub_refused=sub_refused)
             error = None
             try:
                 request, sop_class, req_instance = call_provider(
@@ -183,7 +187,7 @@ def run_case(res, case):
         res.violation(key, 'C17.answered', '%s: provider raised %s: %s and sent no response' % (
             where, type(error).__name__, error), case)
         return
-    if error is not None:
+    if error is not None and not case.get('sub_refused'):
         res.violation('provider-raises:' + provider, 'C17.answered', '%s: provider raised %s: %s after %d '
                       'responses' % (where, type(error).__name__, error, len(responses)), case)
     if not responses:
